@@ -4,7 +4,15 @@ set -e
 cd "$(dirname "$0")"
 mkdir -p .work evidence
 export CARGO_NET_OFFLINE=true
-(cd lean/FendModel && lake build FendModel fend_model_driver)
+# regenerate the Tie A tables first (the property modules import them), then build everything in one parallel lake run so that
+# the per-check `lake build <module>` calls are no-ops
+python3 - <<'PY'
+import sys
+sys.path.insert(0, ".")
+for m in ("alloc_sites", "callback_sites", "panic_sites", "poll_sites"):
+    getattr(__import__("translator." + m, fromlist=["generate"]), "generate")()
+PY
+(cd lean/FendModel && lake build FendModel fend_model_driver $(ls FendModel/Props/*.lean | sed 's#/#.#g; s#\.lean$##'))
 [ -f harness/Cargo.lock ] || cp /repo/Cargo.lock harness/Cargo.lock
 (cd harness && cargo build --offline)
 (cd /repo && CARGO_TARGET_DIR=/verif/.work/target-cli cargo build --offline -p fend)
